@@ -45,6 +45,11 @@ LOAD_CASES = [
     dict(spec=[], type=('any',), text='!!timestamp x', props=['C08']),
     dict(spec=[], type=('any',), text='!!bool maybe', props=['C08']),
     dict(spec=[], type=('int',), text='!!int', props=['C08']),
+    # a user __init__ raising an exception without arguments, at the top level and in a list
+    dict(spec=[plain('Picky', [P('n', ('int',))], init_raises=('n', 13), init_raise_style='bare')],
+         type=('cls', 'Picky'), text='{n: 13}', props=['C08']),
+    dict(spec=[plain('Picky', [P('n', ('int',))], init_raises=('n', 13), init_raise_style='assert')],
+         type=('seq', 'list', ('cls', 'Picky')), text='[{n: 1}, {n: 13}]', props=['C08']),
     # F16 / F17
     dict(spec=[plain('Keyed', [P('x', ('int',)), P('y', CM.t_opt(('int',)), default=None)])],
          type=('cls', 'Keyed'), text='{? [a] : v}', props=['C08']),
